@@ -71,9 +71,11 @@ func RSASignSHA1Digest(sha1Digest []byte, keyFile, passphrase string) ([]byte, e
 		if err != nil {
 			return nil, fmt.Errorf("parse PKCS#8 private key: %w", err)
 		}
-		privTmp, ok := privAny.(crypto.Signer)
+		// an apk signature is RSA PKCS#1 v1.5: a key of another kind
+		// (ECDSA, Ed25519) signs, but nothing can verify the result.
+		privTmp, ok := privAny.(*rsa.PrivateKey)
 		if !ok {
-			return nil, fmt.Errorf("cannot sign with given private key")
+			return nil, fmt.Errorf("cannot sign with given private key: %T is not an RSA key", privAny)
 		}
 		priv = privTmp
 	default:
